@@ -38,5 +38,10 @@ mk(G,'g11_range_pred_local','-',MQ,'.take_while(move |idx| range.contains(&self.
 FN='src/rolling/file_number.rs'
 mk(B,'b43_inc_reuses_curr','C07 C06',FN,'let new_number = *curr.file_number + 1u64;','let new_number = *curr.file_number;','roll-over re-creates the current file number instead of the next one')
 mk(G,'g12_inc_plus_two','-',FN,'let new_number = *curr.file_number + 1u64;','let new_number = *curr.file_number + 2u64;','a gap in file numbers is allowed (C17)')
+RD='src/rolling/directory.rs'
+mk(B,'b45_intow_next_block','C01',RD,'let offset = self.block_id * crate::BLOCK_NUM_BYTES;','let offset = (self.block_id + 1) * crate::BLOCK_NUM_BYTES;','the writer resumes behind the block the reader stood on instead of at its start')
+mk(B,'b46_intow_no_seek','C01',RD,'        self.file.seek(SeekFrom::Start(offset as u64))?;\n        Ok(RollingWriter {','        Ok(RollingWriter {','the file cursor is left behind the last block read')
+mk(B,'b47_intow_first_file','C01 C06',RD,'            file_number: self.file_number.clone(),\n            directory: self.directory,','            file_number: self.directory.first_file_number().clone(),\n            directory: self.directory,','the recovered writer claims to write into the oldest file')
+mk(G,'g13_intow_commute','-',RD,'let offset = self.block_id * crate::BLOCK_NUM_BYTES;','let offset = crate::BLOCK_NUM_BYTES * self.block_id;','commuted product')
 shutil.rmtree(W, ignore_errors=True)
 subprocess.run(['git','-C','/repo','worktree','prune'],check=True)
